@@ -203,6 +203,17 @@ theorem statusOK_moves {j0 : JobObj} {s : Sys} {a : Action} (hb : Base j0 s) (ht
       have := statusOK_sync (j0 := j0) sp jo htm' (hf.d ▸ ih h jo rfl)
       rw [hf.d] at this
       exact this
+    | ctlStatusOn jo sp rv0 rv _ hc hf _ =>
+      cases hj'
+      have hle := (sync_spec sp jo sp (CreatePhase.refl _)).2
+      have hjo := (hb.seenOK jo (mem_seenVers_cache hc)).1
+      have htm' : jo.job.template.isSome = true := by rw [hjo.template]; exact htm
+      -- the object `Update` produced carries the status of the cached Job
+      have hjoOK : StatusOK j0 s.d jo.job :=
+        (ih h _ rfl).congr rfl hle.template.symm (fun h' => h') (fun h' => hle.kill.trans h')
+      have := statusOK_sync (j0 := j0) sp jo htm' (hf.d ▸ hjoOK)
+      rw [hf.d] at this
+      exact this.congr rfl hle.template (fun h' => h') (fun h' => hle.kill.symm.trans h')
 
 /-- **`StatusOK` is an invariant** of every history (all actions allowed; Job created with a template) -/
 theorem statusOK_of_reach {ok : Sys → Action → Prop} {j0 : JobObj} {s : Sys} (hr : Reach ok j0 s)
